@@ -153,7 +153,7 @@ def self_field_flows(fn, adt_path, self_local=1):
                         changed = True
 
     def rec(key):
-        return res.setdefault(key, {"projected": False, "calls": set(), "identity_agg": [], "closure": set(), "returned": False})
+        return res.setdefault(key, {"projected": False, "calls": set(), "identity_agg": [], "closure": set(), "returned": False, "read_blocks": set()})
 
     for key in taint.get(0, ()):
         rec(key)["returned"] = True
@@ -182,10 +182,13 @@ def self_field_flows(fn, adt_path, self_local=1):
                     pl = mir.op_place(o)
                     if pl is not None:
                         places.append(pl)
+            if k == "discr":
+                places.append(rv["pl"])
             for pl in places:
                 fo = field_of(pl)
                 if fo:
                     rec(fo)["projected"] = True
+                    rec(fo)["read_blocks"].add(bi)
             if s["lhs"]["p"] and k in ("use", "agg"):
                 # store through a pointer / into a field of another value (e.g. the `vec!` expansion writes the
                 # element array through a raw pointer): the value is kept, by reference, in a collection
@@ -210,6 +213,7 @@ def self_field_flows(fn, adt_path, self_local=1):
                 fo = field_of(pl)
                 if fo:
                     rec(fo)["projected"] = True
+                    rec(fo)["read_blocks"].add(bi)
                 for key in seeds_of_place(pl):
                     if not mir.is_transparent(t, IDENTITY_CALLS[len(mir.TRANSPARENT):]):
                         rec(key)["calls"].add(mir.callee_of(t))
@@ -282,11 +286,82 @@ def arm_returns_const(fn, start, want):
     return False
 
 
+def self_aliases(fn, self_local=1):
+    """locals that are plain copies / reborrows of self (no field projection)"""
+    tw = {self_local}
+    changed = True
+    while changed:
+        changed = False
+        for b in fn["blocks"]:
+            if b["cleanup"]:
+                continue
+            for s in b["s"]:
+                rv = s["rv"]
+                pl = None
+                if rv["k"] in ("use", "cast"):
+                    pl = mir.op_place(rv["op"])
+                elif rv["k"] in ("ref", "rawptr"):
+                    pl = rv["pl"]
+                if pl is not None and pl["l"] in tw and not [p for p in pl["p"] if p[0] != "d"] and not s["lhs"]["p"]:
+                    if s["lhs"]["l"] not in tw:
+                        tw.add(s["lhs"]["l"])
+                        changed = True
+    return tw
+
+
+def skipping_path(fn, adt, variant_discr, read_blocks, self_local=1):
+    """Is there a path from the entry to a *success* return on which none of `read_blocks` is passed, following - at every
+    switch on the discriminant of self - only the edge of the given variant?  Error exits (`?` residuals, `_0 = Err(..)`),
+    panics and unwinds do not count.  Returns the line of the offending return or None."""
+    blocks = fn["blocks"]
+    al = self_aliases(fn, self_local)
+    seen = set()
+    st = [0]
+    while st:
+        bi = st.pop()
+        if bi in seen or bi in read_blocks:
+            continue
+        seen.add(bi)
+        b = blocks[bi]
+        if b["cleanup"]:
+            continue
+        err = False
+        dl = None
+        for s in b["s"]:
+            rv = s["rv"]
+            if s["lhs"]["l"] == 0 and not s["lhs"]["p"] and rv["k"] == "agg" and rv.get("variant") == "Err":
+                err = True
+            if rv["k"] == "discr" and rv["pl"]["l"] in al and not [p for p in rv["pl"]["p"] if p[0] != "d"]:
+                dl = s["lhs"]["l"]
+        if err:
+            continue
+        t = b["t"]
+        k = t["k"]
+        if k == "return":
+            return t.get("line") or (b["s"][-1]["line"] if b["s"] else fn.get("line"))
+        if k == "call":
+            c = t.get("callee") or ""
+            if c.endswith("FromResidual::from_residual"):
+                continue
+            if t.get("t") is not None:
+                st.append(t["t"])
+            continue
+        if k == "switch" and dl is not None and variant_discr is not None:
+            pl = mir.op_place(t["discr"])
+            if pl is not None and pl["l"] == dl:
+                tg = dict((v, tb) for v, tb in t["targets"])
+                st.append(tg.get(variant_discr, t["otherwise"]))
+                continue
+        for n in mir.block_succs(b):
+            st.append(n)
+    return None
+
+
 BYVAL = "val"
 BYREF = "ref"
 
 
-def check_impl_method(F, fn, adt_path, fam, mode, rule, rows, method_sem=None, self_local=1):
+def check_impl_method(F, fn, adt_path, fam, mode, rule, rows, method_sem=None, self_local=1, must_paths=True):
     """obligations for one impl method on ADT adt_path.
 
     rows: dict (fn path, variant, field) -> reason  (reviewed exceptions)
@@ -319,6 +394,11 @@ def check_impl_method(F, fn, adt_path, fam, mode, rule, rows, method_sem=None, s
                     fld, adt_path.split("::")[-1], var, ty, fn["path"].split("::")[-1]))
             else:
                 problems.append("field `%s` of `%s::%s` is read but never passed to a call" % (fld, adt_path.split("::")[-1], var))
+        if visited and method_sem != "is_constant" and must_paths:
+            ln = skipping_path(fn, adt_path, discr_of.get(var) if adt["is_enum"] else None, fl["read_blocks"], self_local)
+            if ln is not None:
+                problems.append("there is a path to a successful return (line %s) on which field `%s` of `%s::%s` is never looked at: children in it are skipped there" % (
+                    ln, fld, adt_path.split("::")[-1], var))
         if mode == BYVAL and fl and fl["identity_agg"]:
             problems.append("field `%s` of `%s::%s` (type %s) is moved unchanged into the rebuilt value (identity flow, no recursive call on it)" % (
                 fld, adt_path.split("::")[-1], var, ty))
